@@ -269,6 +269,69 @@ def features(proto):
         n = p.name
         if n != n[:1].upper() + n[1:] or '_' in n or (n.isupper() and len(n) > 1) or any(ch.isdigit() for ch in n):
             A.add('pkt-ident-odd')
+    # depth of packet-reference chains (object fields and match pairs) below each packet
+    memo = {}
+
+    def refdepth(name, seen=()):
+        if name in memo:
+            return memo[name]
+        if name in seen:
+            return 0
+        try:
+            pk = proto.packet(name)
+        except KeyError:
+            return 0
+        fl = []
+        walk_fields(proto, pk.fields, (), fl)
+        d = 0
+        for f, _ in fl:
+            if f.kind == 'ref':
+                d = max(d, 1 + refdepth(f.packet, seen + (name,)))
+            elif f.kind == 'match':
+                for _, pn in f.pairs:
+                    d = max(d, 1 + refdepth(pn, seen + (name,)))
+        memo[name] = d
+        return d
+    objnames = {}
+    for pk in proto.packets:
+        fl = []
+        walk_fields(proto, pk.fields, (), fl)
+        for f, _ in fl:
+            if f.kind in ('ref', 'inline', 'match'):
+                objnames[f.name] = objnames.get(f.name, 0) + 1
+    if any(v > 1 for v in objnames.values()):
+        A.add('objname-reused')
+    # does the sample tree of some packet (object fields, inline objects, first match alternative) use one member name twice?
+    for pk in proto.packets:
+        names = []
+
+        def collect(fields, depth):
+            if depth > 6:
+                return
+            for f in fields:
+                if f.kind == 'ref':
+                    names.append(f.name)
+                    try:
+                        collect(proto.packet(f.packet).fields, depth + 1)
+                    except KeyError:
+                        pass
+                elif f.kind == 'inline':
+                    names.append(f.name)
+                    collect(f.fields, depth + 1)
+                elif f.kind == 'match':
+                    names.append(f.name)
+                    try:
+                        collect(proto.packet(f.pairs[0][1]).fields, depth + 1)
+                    except KeyError:
+                        pass
+        collect(pk.fields, 0)
+        if len(set(names)) < len(names):
+            A.add('sample-name-collision')
+            break
+    md = max([refdepth(pk.name) for pk in proto.packets] + [0])
+    A.add('refdepth:%d' % min(md, 3))
+    if md >= 2:
+        A.add('refdepth>=2')
     if anyrep:
         A.add('any-repeat')
     if anystr:
